@@ -208,4 +208,8 @@ def boxedCheckedMulT (na nb : Nat) : Trace := (boxedCheckedMul na nb [] []).tr
 @[simp] theorem boxedCheckedMul_tr (na nb : Nat) (a b : List Sec) : (boxedCheckedMul na nb a b).tr = boxedCheckedMulT na nb := by
   unfold boxedCheckedMulT boxedCheckedMul; leak_simp; simp only [boxedMul_tr, boxedIsZero_tr]
 
+def divBy2BoxedT (n : Nat) : Trace := (divBy2Boxed n [] []).tr
+@[simp] theorem divBy2Boxed_tr (n : Nat) (a m : List Sec) : (divBy2Boxed n a m).tr = divBy2BoxedT n := by
+  unfold divBy2BoxedT divBy2Boxed; leak_simp; simp only [boxedCondAdcAssign_tr, boxedShr1_tr, boxedSetBit_tr]
+
 end CB.Leak
